@@ -656,17 +656,17 @@ class World:
             return self.ident(ne, depth + 1, expand_ws)
         return e
 
-    def norm(self, e, depth=0):
+    def norm(self, e, depth=0, expand_ws=True):
         """deep normal form: identity wrappers stripped at every level (workspace calls
-        expanded), for structural pattern matching on operand roles"""
+        expanded unless expand_ws=False), for structural pattern matching on operand roles"""
         memo = self.__dict__.setdefault("_norm_memo", {})
-        k = id(e)
+        k = (id(e), expand_ws)
         if k in memo:
             return memo[k][1]
         memo[k] = (e, e)  # cycle guard
-        i = self.ident(e)
+        i = self.ident(e, 0, expand_ws)
         if depth < 30 and i.args:
-            na = tuple(self.norm(a, depth + 1) for a in i.args)
+            na = tuple(self.norm(a, depth + 1, expand_ws) for a in i.args)
             if any(x is not y for x, y in zip(na, i.args)):
                 i = E(i.op, na, i.info, i.site)
         memo[k] = (e, i)
